@@ -110,6 +110,31 @@ def run_c12(tier, seed):
                 scs.append(scenario("c12-%s-%d-bytewise" % (kind, k), b, list(range(1, len(b)))))
                 scs.append(scenario("c12-%s-%d-cut" % (kind, k), b, [rng.randrange(1, len(b))]))
         r = common.replay_and_validate(cfg, scs, wd, "c12", spec="RawTrace", cfgfile="RawTrace.cfg")
+        # well-formed requests whose keys are arbitrary bytes (not UTF-8, a colon in odd places, very long, multi-byte
+        # characters at every offset), answered late enough to pass through the proxy's slow-request bookkeeping
+        bkeys = [b"\xff\xfe\x80\x81:42", "\u8ba2\u5355\u660e\u7ec6\u5386\u53f2\u5f52\u6863:42".encode(), b":", b"::", b"a:" + bytes(range(128, 160)), b"\x00:\x00", b"\xc3:\xa9",
+                 b"k" * 15 + "\u00e9".encode() + b":1", b"k" * 16 + b"\xf0\x9f\x98:", bytes(range(256)), b"\r\n:\r\n", b"{\xff}:x", b"p" * 300 + b":" + b"\x80" * 20]
+        if not q:
+            bkeys += [bytes(rng.randrange(256) for _ in range(rng.randint(1, 40))) + b":" + bytes(rng.randrange(256) for _ in range(rng.randint(0, 8))) for _ in range(150)]
+        kscs = []
+        for k, key in enumerate(bkeys):
+            for name in (b"GET", b"SET", b"HGETALL"):
+                args = [name, key] + ([b"v"] if name == b"SET" else [])
+                blob = b"*%d\r\n" % len(args) + b"".join(b"$%d\r\n%s\r\n" % (len(a), a) for a in args)
+                node = "n%d" % (1 + min(2, common.key_slot(key) // 5462)) if common.key_slot(key) <= 16383 else "n3"
+                stim = lambda **kw: dict({"op": "", "c": "", "n": "", "reqs": [], "hex": "", "kind": "", "cls": "", "to": "", "count": 0, "src": "", "text": "", "cuts": []}, **kw)
+                rq = lambda kk, sl: {"k": kk, "slots": sl, "args": [], "dups": [-1] * len(sl)}
+                kscs.append({"id": "c12-binkey-%d-%s" % (k, name.decode()), "role": "", "steps": [
+                    {"stim": [stim(op="send", c="c2", reqs=[rq("get", ["A"])]), stim(op="raw", c="c1", hex=blob.hex())], "settle": True, "noIter": False},
+                    {"stim": [stim(op="sleep", count=4)], "settle": False, "noIter": True},
+                    {"stim": [stim(op="answer", n=n, kind="ok", count=3) for n in ("n1", "n2", "n3")], "settle": True, "noIter": False},
+                    {"stim": [stim(op="send", c="c2", reqs=[rq("get", ["B"]), rq("mget", ["A", "B", "C"])])], "settle": True, "noIter": False},
+                    {"stim": [stim(op="answer", n=n, kind="ok", count=3) for n in ("n1", "n2", "n3")], "settle": True, "noIter": False}]})
+        rk = common.replay_and_validate(dict(cfg, slowlogMs=1), kscs, wd, "c12keys", spec="RawTrace", cfgfile="RawTrace.cfg")
+        for kk in ("states", "transitions", "traces", "events", "unrealised", "crashes", "dead"):
+            r[kk] += rk[kk]
+        r["viol"] += rk["viol"]
+        r["harness_errors"] += rk["harness_errors"]
         viol = []
         other = {}
         for v in r["viol"]:
